@@ -29,7 +29,7 @@ func init() {
 	register("C05", "model_checking", c05.Run, c05.Replay)
 	register("C06", "model_checking", c06.Run, c06.Replay)
 	register("C07", "exploration", c07.Run, c07.Replay)
-	register("C08", "exploration", c08.Run, c08.Replay)
+	register("C08", "model_checking", c08.Run, c08.Replay)
 	register("C09", "exploration", c09.Run, c09.Replay)
 	register("C10", "model_checking", c10.Run, c10.Replay)
 	register("C12", "exploration", c12.Run, c12.Replay)
